@@ -58,7 +58,7 @@ def run_entry(entry):
             continue
         if ONLY and prop not in ONLY:
             continue
-        s, err = analyse(prop, prog)
+        s, err = analyse(prop, prog, entry.get("tier", "quick"))
         if err:
             errors.append(f"{prop}: {err}")
         for f in new_findings(s):
